@@ -5,33 +5,29 @@ From YV Require Import Val.Model Val.Proofs Tree.Schema Tree.Editor Tree.Pct Tre
      Tree.KeyText Tree.KeyTextProofs Tree.Find Tree.FindText Tree.FindProofs.
 Import ListNotations.
 
+Arguments parse_one : simpl never.
+
+Section Enc.
+Variable esc : list byte -> list byte.
+Hypothesis esc_valid : valid_enc esc.
+
 (** from the module root *)
-Theorem find_render : forall pfx kids data l quals trailing cur,
+Theorem find_render_enc : forall pfx kids data l quals trailing cur,
   loc_ok kids l -> resolve (AtCont kids data) l = Some cur ->
-  find pfx kids data [] (render quals trailing kids l) = FOk (Some l).
+  find pfx kids data [] (render_with esc quals trailing kids l) = FOk (Some l).
 Proof.
   intros pfx kids data l quals trailing cur Hok Hres.
-  pose proof (find_render_from pfx kids data [] [] kids data l quals trailing eq_refl Hok) as H.
+  pose proof (find_render_from esc esc_valid pfx kids data [] [] kids data l quals trailing eq_refl Hok) as H.
   simpl in H. rewrite Hres in H. exact H.
 Qed.
 
-Theorem find_absent_none : forall pfx kids data l quals trailing,
+Theorem find_absent_none_enc : forall pfx kids data l quals trailing,
   loc_ok kids l -> resolve (AtCont kids data) l = None ->
-  find pfx kids data [] (render quals trailing kids l) = FOk None.
+  find pfx kids data [] (render_with esc quals trailing kids l) = FOk None.
 Proof.
   intros pfx kids data l quals trailing Hok Hres.
-  pose proof (find_render_from pfx kids data [] [] kids data l quals trailing eq_refl Hok) as H.
+  pose proof (find_render_from esc esc_valid pfx kids data [] [] kids data l quals trailing eq_refl Hok) as H.
   simpl in H. rewrite Hres in H. exact H.
-Qed.
-
-(** Path.StringNoModule() of the selection found at [l] leads Find from the root back to [l] *)
-Theorem path_string_identifies : forall pfx kids data l cur,
-  loc_ok kids l -> resolve (AtCont kids data) l = Some cur ->
-  find pfx kids data [] (path_string_nomod kids l) = FOk (Some l).
-Proof.
-  intros pfx kids data l cur Hok Hres.
-  pose proof (find_render pfx kids data l [] false cur Hok Hres) as H.
-  unfold render in H. rewrite app_nil_r in H. exact H.
 Qed.
 
 (** ** a name that is not in the schema *)
@@ -61,7 +57,7 @@ Qed.
 Lemma parse_unknown pfx name more : ident_ok name = true ->
   forall pre kids quals is_mod sk,
   loc_ok kids pre -> scope_after kids pre = Some sk -> lookup_name sk name O = None ->
-  parse_segs is_mod pfx (Some kids) (render_segs escape quals kids pre ++ name :: more) = PErr FNotFound.
+  parse_segs is_mod pfx (Some kids) (render_segs esc quals kids pre ++ name :: more) = PErr FNotFound.
 Proof.
   intros Hn. induction pre as [|st tl IH]; intros kids quals is_mod sk Hok Hsc Hl.
   - simpl in Hsc. inversion Hsc; subst sk. simpl app.
@@ -85,32 +81,32 @@ Proof.
       destruct (Hr) as [_ [Hnk Hm]].
       destruct (step_name_facts q (SList m keys row) Hnk Hm) as [[c [r [E _]]] _].
       rewrite <- app_comm_cons.
-      change (join comma (map (fun v => escape (key_text v)) key)) with (key_seg key).
+      change (join comma (map (fun v => esc (key_text v)) key)) with (key_seg esc key).
       rewrite E. rewrite <- app_comm_cons. rewrite parse_segs_cons. rewrite app_comm_cons. rewrite <- E.
-      rewrite (parse_one_key _ _ _ i m keys row q key _ Hr Hne Hkeys). cbv beta.
+      rewrite (parse_one_key esc esc_valid _ _ _ i m keys row q key _ Hr Hne Hkeys). cbv beta.
       simpl scope_of_node in *; cbv iota beta in *.
       rewrite (IH (skids row) quals' false sk) by assumption. reflexivity.
 Qed.
 
 (** a path whose first unknown segment is [name] - after any schema-valid prefix (whether or not
     that prefix exists in the data) and before anything - is answered with the not-found error *)
-Theorem find_unknown_notfound : forall pfx kids data pre quals name more sk,
+Theorem find_unknown_notfound_enc : forall pfx kids data pre quals name more sk,
   loc_ok kids pre -> scope_after kids pre = Some sk ->
   ident_ok name = true -> lookup_name sk name O = None ->
   Forall (fun s => free slash s /\ free qmark s) more ->
-  find pfx kids data [] (join slash (render_segs escape quals kids pre ++ name :: more)) = FErr FNotFound.
+  find pfx kids data [] (join slash (render_segs esc quals kids pre ++ name :: more)) = FErr FNotFound.
 Proof.
   intros pfx kids data pre quals name more sk Hok Hsc Hn Hl Hmore.
-  destruct (render_segs_props pre kids quals Hok) as [Hfree Hfirst].
+  destruct (render_segs_props esc esc_valid pre kids quals Hok) as [Hfree Hfirst].
   assert (Hname : free slash name /\ free qmark name) by (split; apply ident_free; simpl; tauto).
-  assert (Hall : Forall (fun s => free slash s /\ free qmark s) (render_segs escape quals kids pre ++ name :: more)).
+  assert (Hall : Forall (fun s => free slash s /\ free qmark s) (render_segs esc quals kids pre ++ name :: more)).
   { apply Forall_app. split; [exact Hfree|]. constructor; assumption. }
-  assert (Hsl : Forall (free slash) (render_segs escape quals kids pre ++ name :: more)).
+  assert (Hsl : Forall (free slash) (render_segs esc quals kids pre ++ name :: more)).
   { eapply Forall_impl; [|exact Hall]. intros s [H _]. exact H. }
-  assert (Hqm : Forall (free qmark) (render_segs escape quals kids pre ++ name :: more)).
+  assert (Hqm : Forall (free qmark) (render_segs esc quals kids pre ++ name :: more)).
   { eapply Forall_impl; [|exact Hall]. intros s [_ H]. exact H. }
-  assert (Hne : render_segs escape quals kids pre ++ name :: more <> []) by (destruct (render_segs escape quals kids pre); discriminate).
-  assert (Hnodot : nodot (join slash (render_segs escape quals kids pre ++ name :: more))).
+  assert (Hne : render_segs esc quals kids pre ++ name :: more <> []) by (destruct (render_segs esc quals kids pre); discriminate).
+  assert (Hnodot : nodot (join slash (render_segs esc quals kids pre ++ name :: more))).
   { destruct pre as [|st tl].
     - simpl. destruct (ident_ok_parts name Hn) as [c [r [E [Hd _]]]]. rewrite E. destruct more; simpl; exact Hd.
     - destruct (Hfirst ltac:(congruence)) as [c [r [tl' [E Hd]]]]. rewrite E.
@@ -120,6 +116,30 @@ Proof.
   simpl resolve. simpl scope_of. rewrite split_join_plain by assumption.
   rewrite (parse_unknown pfx name more Hn pre kids quals _ sk Hok Hsc Hl). reflexivity.
 Qed.
+
+End Enc.
+
+(** with the reference encoder *)
+Theorem find_render : forall pfx kids data l quals trailing cur,
+  loc_ok kids l -> resolve (AtCont kids data) l = Some cur ->
+  find pfx kids data [] (render quals trailing kids l) = FOk (Some l).
+Proof. exact (find_render_enc escape escape_valid). Qed.
+
+Theorem find_absent_none : forall pfx kids data l quals trailing,
+  loc_ok kids l -> resolve (AtCont kids data) l = None ->
+  find pfx kids data [] (render quals trailing kids l) = FOk None.
+Proof. exact (find_absent_none_enc escape escape_valid). Qed.
+
+(** Path.StringNoModule() of the selection found at [l] leads Find from the root back to [l] *)
+Theorem path_string_identifies : forall pfx kids data l cur,
+  loc_ok kids l -> resolve (AtCont kids data) l = Some cur ->
+  find pfx kids data [] (path_string_nomod kids l) = FOk (Some l).
+Proof.
+  intros pfx kids data l cur Hok Hres.
+  pose proof (find_render pfx kids data l [] false cur Hok Hres) as H.
+  unfold render, render_with in H. rewrite app_nil_r in H. exact H.
+Qed.
+
 
 (** ** navigation only reads.
     findSlice builds its requests as ChildRequest{Request{Selection, Target}, Meta} and
